@@ -56,7 +56,23 @@ def _worker(args):
     mod = sys.modules.get(modname) or __import__(modname, fromlist=["x"])
     try:
         r = mod.run_case(case)
-    except BaseException as e:  # harness fault, not a verdict
+    except BaseException as e:  # harness fault, not a verdict - unless the library itself raised
+        tb = traceback.extract_tb(e.__traceback__)
+        last = os.path.realpath(tb[-1].filename) if tb else ""
+        if isinstance(e, Exception) and last.startswith(os.path.realpath(REPO) + os.sep):
+            # an exception raised by library code outside any observed operation (while a legal expression
+            # was being constructed, or in a helper the harness calls directly): on the unchanged tree this
+            # never happens (it would be a harness error); it is reported as a violation, not as a harness fault
+            return {
+                "failures": [
+                    {
+                        "sig": f"{getattr(mod, 'ID', '?')}|library-raised-outside-an-observed-operation|{type(e).__name__}|{case_hash(case)}",
+                        "what": f"the library raised {type(e).__name__}: {str(e)[:160]} at {os.path.relpath(last, REPO)}:{tb[-1].lineno} while the harness was constructing / preparing a legal case",
+                        "detail": "".join(traceback.format_list(tb[-4:]))[-1500:],
+                        "case": case,
+                    }
+                ]
+            }
         r = {
             "failures": [],
             "harness_errors": [
